@@ -37,6 +37,13 @@ CHECKS['C08'] = {
     'technique': 'TLA+ exact lag-domain kernel spec + TLC enumeration + replay; TLC trace validation of recorded object traces and observation events',
 }
 
+CHECKS['C09'] = {
+    'text': 'Correlation.tla defines every normalisation of the (cross-)correlation from the definition in exact complex-rational arithmetic; TLC enumerates all small x (and y, equal and unequal lengths), checks r[0]=mean|x|^2>=|r[k]|, coefficient normalisation, Hermitian lags and Gram(data matrix)=N*Toeplitz on the model, and every final state is replayed into CORRELATION and xcorr (all norms, several maxlags, list/array entry); CorrMtxEnum.tla gives the index matrix of corrmtx for every (N, m, method). N up to 200: observation events validated by ObsC09.tla.',
+    'design_ref': 'DESIGN.md 3/C09',
+    'note': 'Exact universe: real N<=4/5 (parts -1..1 / -2..2), complex N<=3/4, cross pairs N<=3; cross-correlation coeff normalisation is outside the statement. Positive semi-definiteness at large N is measured by numpy eigvalsh (quantised) and judged by the spec.',
+    'technique': 'TLA+ exact definition + TLC enumeration + state replay; TLC-validated observation events',
+}
+
 NOT_APPLICABLE = {
     'C18': 'Slepian tapers: irrational eigenproblem solved in C; no exact finite model exists and quantised re-verification would make Python the oracle (a different technique). DESIGN.md section 4.',
 }
